@@ -25,9 +25,10 @@ use verif_harness::rec::{wops_coq, Rec, Wop};
 use verif_harness::*;
 
 #[allow(dead_code)]
-// relative to this file: /verif/harness/src/bin -> /repo; under VERIF_REPO the harness is copied to <alt>/harness and
-// tools/checks/c16.py links <alt>/repo to the worktree, so the same relative path reaches the worktree's file
-#[path = "../../../../repo/crates/cli/src/builtins.rs"]
+// `c16_repo` is a symlink next to this file: to /repo here; under VERIF_REPO the harness is copied (without it) to
+// <alt>/harness and tools/checks/c16.py creates <alt>/harness/src/bin/c16_repo -> the worktree, so the in-process
+// remove_builtins is the worktree's
+#[path = "c16_repo/crates/cli/src/builtins.rs"]
 mod cli_builtins;
 
 // ------------------------------------------------------------------ Coq printing of texts
